@@ -210,7 +210,9 @@ def kinds(big: bool = False, depth3: bool = False) -> t.List[Kind]:
         Kind("UnbindRequest", common(), lambda v: L.UnbindRequest(v["message_id"], v["controls"])),
         Kind("SearchRequest", common() + [Field("base_object", s), Field("scope", SCOPE), Field("deref_aliases", DEREF),
                                           Field("size_limit", INT), Field("time_limit", INT), Field("types_only", BOOL),
-                                          Field("filter", fdom, fx), Field("attributes", LIST(s))],
+                                          Field("filter", fdom, fx),
+                                          # attribute selectors RFC 4511 4.5.1.8 gives a meaning to ("1.1", "*", "+"), alone and in company
+                                          Field("attributes", LIST(s) + [["1.1"], ["1.1", "cn"], ["cn", "1.1", "*"], ["*", "+"], ["*", "cn", "*"], ["+", "1.1"], ["cn", "CN", "cn"]])],
              lambda v: L.SearchRequest(v["message_id"], v["controls"], v["base_object"], v["scope"], v["deref_aliases"],
                                        v["size_limit"], v["time_limit"], v["types_only"], v["filter"], v["attributes"])),
         Kind("SearchResultEntry", common() + [Field("object_name", s), Field("attributes", LIST(partial_attrs()))],
